@@ -204,6 +204,25 @@ func c20One(c *Ctx, fields [][2]int, v c20variant, local map[string]int64) {
 		r.Violation("column-names", det(fmt.Sprintf("not a pure function of the statement: after changing OmitTime / TimeAlias the statement answers %q, an identical fresh statement answers %q", again, want2)))
 		return
 	}
+	// the expressions themselves are edited in place (every reference renamed):
+	// the names follow the statement as it is now, as they do for the same
+	// statement printed and parsed afresh
+	influxql.WalkFunc(sel.Fields, func(n influxql.Node) {
+		if vr, ok := n.(*influxql.VarRef); ok {
+			vr.Val += "x"
+		}
+	})
+	var again3, want3 []string
+	if re, err, pan, _, _ := parseQuery1(sel.String()); err == nil && !pan {
+		rsel := re.(*influxql.SelectStatement)
+		rsel.OmitTime, rsel.TimeAlias = sel.OmitTime, sel.TimeAlias
+		mon.Try(func() { again3, want3 = sel.ColumnNames(), rsel.ColumnNames() })
+		if strings.Join(again3, "\x00") != strings.Join(want3, "\x00") {
+			r.Violation("column-names", det(fmt.Sprintf("not a pure function of the statement: after renaming every reference in place (statement now %q) it answers %q, the same statement parsed afresh answers %q", sel.String(), again3, want3)))
+			return
+		}
+		local["renamed-in-place"]++
+	}
 	local["ok"]++
 }
 
